@@ -46,7 +46,7 @@ def floors(tier):
             "class:prior-unif": 8, "class:prior-gamma": 5, "class:prior-norm": 5, "class:logscale": 5, "class:non-model-order": 8,
             "class:nearest-neighbours": 5, "class:tolerance-list": 3, "class:quantile": 10,
             "class:infers-initial-state": 8, "class:tol-int": 8, "class:legacy-sampler": 6, "counter:recorded_tolerance_checks": 25, "class:three-or-more-unknowns": 6, "class:re-ordering-not-self-inverse": 3,
-            "counter:other_model_first_calls": 16}
+            "counter:other_model_first_calls": 16, "counter:refused_calls_before_run": 10}
 
 
 class AbcProbe:
@@ -166,6 +166,22 @@ def run_case(rng, idx, tier, lane, ctx):
             else:
                 obj = pgabc.create_loss("SquareLoss", pri, c.m, list(c.x0), c.t0, c.times, y, c.state_arg)
             abc = pgabc.ABC(obj, pri)
+        # before the run: an initial-value call on the loss object that is (rightly) refused - the full (all parameters, all states)
+        # vector on an object that estimates only some of the parameters, a vector longer than any accepted form, a non-numeric one
+        if rng.random() < 0.4:
+            n_target = len([p_ for p_ in infer if p_ in c.params])
+            forms = ["too-long", "not-a-vector", "empty"] + (["full-vector-on-partial-target"] * 3 if n_target < c.nP else [])
+            form = rng.choice(forms)
+            arg = {"too-long": np.array([0.7] * (c.nP + c.nS + 3)), "not-a-vector": "not a vector", "empty": np.array([]),
+                   "full-vector-on-partial-target": np.array(list(c.theta) + [v * 1.3 + 0.2 for v in c.x0], dtype=float)}[form]
+            entry = rng.choice(["costIV", "residualIV", "sensitivityIV"])
+            try:
+                with contextlib.redirect_stdout(io.StringIO()), np.errstate(all="ignore"):
+                    getattr(obj, entry)(arg)
+                return {"status": "inconclusive", "reason": "a call meant to be refused was accepted (%s, %s)" % (entry, form), "counters": counters, "sample": sample}
+            except Exception:
+                counters["refused_calls_before_run"] = counters.get("refused_calls_before_run", 0) + 1
+                sample["refused_call_before_run"] = [entry, form]
         ncost = [0]
         orig_cost = obj.cost
 
